@@ -9,9 +9,11 @@
 //!   transcript hash: the property's oracle; recording hash: schedule of the batching transcript;
 //!   forced batching challenge: the algebra of the loop) and the real accumulator.
 mod fmt;
+mod incircuit;
 mod real;
 mod rec;
 mod synth;
+mod tree;
 
 use ff::{Field, PrimeField, WithSmallOrderMulGroup};
 use mzkh::Ctx;
@@ -282,6 +284,10 @@ fn main() {
     sy.from_dual_sum(&mut ctx, 12 * m);
     sy.acc_ops(&mut ctx, 90 * m);
     sy.adaptive_acc(&mut ctx, [1usize, 4, 4][level]);
+    sy.dual_tree(&mut ctx, 60 * m);
+    sy.keysets(&mut ctx, level);
+    sy.totality(&mut ctx);
+    incircuit::run(&mut ctx, level);
     real_layer(&mut ctx, level);
     ctx.finish();
 }
